@@ -146,6 +146,18 @@ pub fn key_of(k: i64) -> KeyCode {
         15 => KeyCode::ArrowLeft,
         16 => KeyCode::ArrowDown,
         17 => KeyCode::ArrowRight,
+        18 => KeyCode::Digit0,
+        19 => KeyCode::Digit1,
+        20 => KeyCode::Digit2,
+        21 => KeyCode::Digit3,
+        22 => KeyCode::Digit4,
+        23 => KeyCode::Digit5,
+        24 => KeyCode::Digit6,
+        25 => KeyCode::Digit7,
+        26 => KeyCode::Digit8,
+        27 => KeyCode::Digit9,
+        28 => KeyCode::KeyI,
+        29 => KeyCode::KeyJ,
         100 => KeyCode::AltLeft,
         101 => KeyCode::AltRight,
         102 => KeyCode::ControlLeft,
